@@ -180,7 +180,9 @@ def cli(mode, use_stdin, d1):
             d1 = v
             break
     data = bytes([0x41, d1, 0xFF])
-    tree = Node("", data, "", 0, 3, children=[Node("k", b"Z", "o", 1, 2, children=[Node("m", b"q", "", 0, 1)])])
+    if d1 == 0 and mode != 2:
+        data = b""  # the empty input is an input too: the library returns a bare root for it
+    tree = Node("", data, "", 0, len(data), children=[Node("k", b"Z", "o", 1, 2, children=[Node("m", b"q", "", 0, 1)])])
     seen = {}
 
     class FakeMD:
